@@ -384,6 +384,10 @@ theorem fullData_length_le (isn : Option Nat) (l : List Seg) : (fullData isn l).
   rw [totalLen_perm (sortByKey_perm _ _)]
   exact totalLen_filter_le _ _
 
+theorem bufferedLen_eq_totalLen : ∀ (l : List Seg), bufferedLen l = totalLen l
+  | [] => rfl
+  | s :: r => by simp [bufferedLen, totalLen, bufferedLen_eq_totalLen r]
+
 theorem totalLen_append (a b : List Seg) : totalLen (a ++ b) = totalLen a + totalLen b := by
   induction a with
   | nil => simp [totalLen]
